@@ -727,6 +727,21 @@ pub fn run(ctx: &Ctx) {
             })
         })
         .collect();
+    // functions that are polled very often before they answer
+    let patience = [1u32, 255, 256, 1000, 32_768, 65_535, 65_536, 70_000, 140_000];
+    ctx.enumerate(
+        "patient-functions",
+        patience.len() as u64,
+        true,
+        |i, acc| {
+            acc.cell("patient", true);
+            acc.sample("patient", || format!("every call suspends {} times", patience[i as usize]));
+            check_patient(patience[i as usize])
+        },
+        |i| json!({"patient_functions": patience[i as usize]}),
+        "patient",
+    );
+
     // the history of the *builder*: symbols that were defined before with other values
     let redefined = redefined_symbol_cases();
     ctx.enumerate(
@@ -945,6 +960,47 @@ pub fn redefined_symbol_cases() -> Vec<(Vec<(u8, String, Value)>, SetCase)> {
     out
 }
 
+/// User functions that suspend `suspend` times before they answer (tens of thousands of times): the outcome of a rule does
+/// not depend on how often a call was polled before it completed.
+pub fn check_patient(suspend: u32) -> Verdict {
+    let mut fns = BTreeMap::new();
+    fns.insert("fa".to_string(), me::FnSpec { cacheable: true, fail_on: vec![], fail_first: 0, uncacheable_after: 0 });
+    fns.insert("fb".to_string(), me::FnSpec { cacheable: false, fail_on: vec![me::arg_key(&Value::Int(9))], fail_first: 0, uncacheable_after: 0 });
+    let call = |f: &str, k: i128| Expr::func(f, Expr::value(k));
+    let spec = SetSpec {
+        rules: vec![
+            ("sum".into(), Expr::add(call("fa", 1), call("fb", 2))),
+            ("again".into(), Expr::Vec(vec![call("fa", 1), call("fb", 2)])),
+            ("fails".into(), call("fb", 9)),
+        ],
+        fns,
+        symbols: BTreeMap::new(),
+        suspend,
+    };
+    let quick = SetSpec { suspend: 0, ..spec.clone() };
+    let run = |s: &SetSpec| {
+        let b = probe::build(s, false);
+        let out = catch(|| detach(block_on_bounded(b.ruleset.evaluate_value(&Value::None), 10_000_000).expect("the evaluation completes").expect("evaluate_value")));
+        let log = b.log.lock().unwrap().clone();
+        (out, log)
+    };
+    let (a, la) = run(&quick);
+    let (b, lb) = run(&spec);
+    match (a, b) {
+        (Ok(a), Ok(b)) if same_outs(&a, &b) && la == lb => Ok(()),
+        (a, b) => Err(Issue::new(
+            "sched:patient-functions",
+            format!(
+                "user functions that suspend {suspend} times before they answer: outcomes {:?} with invocations {:?}; the same functions answering at once: {:?} with {:?}",
+                b.map(|o| o.iter().map(|(n, v)| format!("{n}={}", v.as_ref().map(show_value).unwrap_or_else(|e| format!("Err({e})")))).collect::<Vec<_>>()),
+                lb,
+                a.map(|o| o.iter().map(|(n, v)| format!("{n}={}", v.as_ref().map(show_value).unwrap_or_else(|e| format!("Err({e})")))).collect::<Vec<_>>()),
+                la
+            ),
+        )),
+    }
+}
+
 pub fn check_redefined(earlier: &[(u8, String, Value)], case: &SetCase) -> Verdict {
     probe::with_earlier_symbols(earlier.to_vec(), || {
         super::c09::check(case)?;
@@ -956,6 +1012,9 @@ pub fn check_redefined(earlier: &[(u8, String, Value)], case: &SetCase) -> Verdi
 pub fn replay(j: &serde_json::Value) -> Option<Verdict> {
     if let Some(i) = j.get("redefined_symbols").and_then(|i| i.as_u64()) {
         return redefined_symbol_cases().get(i as usize).map(|(e, c)| check_redefined(e, c));
+    }
+    if let Some(n) = j.get("patient_functions").and_then(|i| i.as_u64()) {
+        return Some(check_patient(n as u32));
     }
     if let Some(i) = j.get("twin_inputs").and_then(|x| x.as_u64()) {
         return Some(check_twin_inputs(i as usize));
